@@ -551,12 +551,18 @@ def run_fixed(desc):
                  ('gl', '[a|b]', ['[a|b]']), ('fn', '[a|b]', ['[a|b]']), ('gl', 'c|[a|b]|d', ['c', '[a|b]', 'd']), ('gl', '[a\\]|b]', ['[a\\]|b]']),
                  ('gl', '[[:alpha:]|]|b', ['[[:alpha:]|]', 'b']), ('gl', 'a\\/[|]|b', ['a\\/[|]', 'b']), ('gl', '[a\\/|b]|[c|d]', ['[a\\/', 'b]', '[c|d]']),
                  ('fn', '[]|]|b', ['[]|]', 'b']), ('gl', '[!]|]|b', ['[!]|]', 'b']), ('fn', '[a[:digit:]|x]|b', ['[a[:digit:]|x]', 'b']), ('fn', '[^|]|b', ['[^|]', 'b']),
-                 ('fn', '[[:alpha:]|b', ['[[:alpha:]', 'b']), ('fn', 'a|[[:alpha:][:digit:]|]', ['a', '[[:alpha:][:digit:]|]'])]
-    rs_names = ['[a/', 'b]', '[a/|b]', 'x', '[!/', 'a', 'b', '|', 'c', 'd', 'a/|', 'a/b', '[a|b]', ']', 'a]', '|]', 'a/[', 'a/|', '[a', '1', '[]', '[', '5|]', '[1']
-    for mode, joined, pieces in raw_split:
+                 ('fn', '[[:alpha:]|b', ['[[:alpha:]', 'b']), ('fn', 'a|[[:alpha:][:digit:]|]', ['a', '[[:alpha:][:digit:]|]']),
+                 # under Windows rules an escaped backslash is a separator as well (path mode only)
+                 ('gl', '[a\\\\|b]c', ['[a\\\\', 'b]c'], 'FORCEWIN'), ('gl', '[a\\\\|b]c', ['[a\\\\|b]c'], 'FORCEUNIX'), ('gl', '[a/|b]c', ['[a/', 'b]c'], 'FORCEWIN'),
+                 ('fn', '[a\\\\|b]c', ['[a\\\\|b]c'], 'FORCEWIN'), ('gl', 'x|[a\\/|b]', ['x', '[a\\/', 'b]'], 'FORCEWIN'), ('gl', '[a|b]c|d', ['[a|b]c', 'd'], 'FORCEWIN')]
+    rs_names = ['[a/', 'b]', '[a/|b]', 'x', '[!/', 'a', 'b', '|', 'c', 'd', 'a/|', 'a/b', '[a|b]', ']', 'a]', '|]', 'a/[', 'a/|', '[a', '1', '[]', '[', '5|]', '[1',
+                'b]c', '[a\\', '\\c', '|c', 'ac', 'bc', '[a\\|b]c', '[A/', 'B]C']
+    for row in raw_split:
+        mode, joined, pieces = row[:3]
         mod = F if mode == 'fn' else G
         match, _ = match_fn(mode)
-        for extra in (0, mod.EXTMATCH, mod.DOTMATCH, mod.NEGATE):
+        plat = getattr(mod, row[3]) if len(row) > 3 else 0
+        for extra in (plat, plat | mod.EXTMATCH, plat | mod.DOTMATCH, plat | mod.NEGATE):
             for entry in (0, 1, 2):
                 out.evaluations += 1
                 want = {n_ for n_ in rs_names if any(match(n_, p_, extra) for p_ in pieces)}
